@@ -9,11 +9,23 @@ Case line:  `<item> <ctor> <n> <v…> ; op ; op ; …`      or      `const <type
         run together with the overflow guard (`guardItem`); without a suffix: `i64`, moderate magnitudes, no guard.
         A guarded history on which any `+`/`*`/`+=` of the code would leave the element type is outside the property's
         domain: the whole line gets `S any`.
+        `sum:cat`: `Sum<Cat>`, `Cat` = a string type whose `+` is concatenation (associative, not commutative);
+        `min|max|minadd|maxadd|mm:rec`: the element type is the harness's record `Rec { key, tag }` ordered by `key` only (value
+        token `key/tag`); `min|max|sum|minadd|maxadd|sumadd|mm:f64|f32`: floats — under `min`/`max` any non-NaN bit pattern
+        (value token = the bits, decimal), under the other items integer-valued floats in the range where `+` is exact
+        (value token = the integer).  Float results are printed and compared as bit patterns.
   `const <type>`: the trait constants `<T as MinMax>::MIN`, `MAX`, `<T as ZeroOne>::ZERO`, `ONE` against the model's
-        `IntTy.minVal`, `IntTy.maxVal`, 0, 1 (all twelve integer types)
+        `IntTy.minVal`, `IntTy.maxVal`, 0, 1 (all twelve integer types); for `f64` / `f32` as bit patterns
   value `v`, or `v@md` (`x@a:b` for aff/aa, `w@k:c` for str): an element that carries a pending modifier of its own
-  ctor  new (one value) | slice | iter (n values)
-  op    set i v | mod l r <modifier> | ask l r | lb l <pred> | lbr r <pred> | dbg
+  ctor  new (one value) | slice | iter | iterp | iterr (n values; `iterp` / `iterr`: `from_iter` on a partially consumed /
+        a reversed `ExactSizeIterator` that yields exactly these values)
+  op    set i v | mod l r <modifier> | ask l r | lb l <pred> | lbr r <pred> | dbg | dfl (`Default::default()`)
+        | cp i l r (`set(i, ask(l, r))`: a value the API returned is fed back)
+        | x i l r  (`other.set(i, this.ask(l, r))`: into the SECOND tree, built by the same constructor from the same values
+          plus the first value once more — one element longer)
+        | y slice|iter|new (the second tree is REBUILT from values read back from this one: `from_slice` / `from_iter` of
+          the `n` single-element asks, `new(n, ask(0, n-1))`)
+        any op prefixed with `b` acts on the second tree (`b x i l r` transfers from the second tree into the first)
 Answer: constructor result and one answer per op, joined by ` ; `:
   raw   `{:?}` of the returned item / `some i`|`none` + the probe log / the `debug()` string
   view  observable value of an `ask`; for a search: answer (`nm` when the predicate is not monotone on the current
@@ -119,20 +131,88 @@ def stepOp (s : Seg T) (xs : List T) (toks : List String) : Option (String × St
     let q2 := q.2.debug I
     some (dbgList io q.1, showListWith io.showA (q2.1.map I.val), showListWith io.showA (xs.map I.val), q2.2, xs,
           q.1.all io.ok && q2.1.all io.ok)
+  | ["dfl"] =>
+    -- `Default::default()`: the seed of the boundary searches (C02: an identity of `merge` on the elements present)
+    some (io.dbg I.dflt, io.showA (I.val I.dflt), io.showA (I.val I.dflt), s, xs, true)
   | _ => none
+
+/-- `dst.set(i, src.ask(l, r))` (`same`: `dst` is `src` itself).  As a history this is `ask l r` on the source followed by
+    `set i x` on the destination, `x` being the item the model's `ask` returned (`C01.transfer_refines`); the plain-list
+    side stores the same `x` and answers with its own left-to-right fold.
+    `(raw, view, spec, src', xsS', dst', xsD', ok)`; with `same` the last pair is the other tree, untouched -/
+def xferOp (same : Bool) (src : Seg T) (xsS : List T) (dst : Seg T) (xsD : List T) (i l r : Nat) :
+    String × String × String × Seg T × List T × Seg T × List T × Bool :=
+  let I := io.item
+  match src.ask I l r with
+  | .error e => (e.toString, "ood", "ood", src, xsS, dst, xsD, true)
+  | .ok (x, src') =>
+    let d0 := if same then src' else dst
+    let xd0 := if same then xsS else xsD
+    match d0.set I i x, Spec.set xd0 i x, Spec.ask I xsS l r with
+    | .ok d', .ok xd', .ok a =>
+      if same then (io.dbg x ++ " .", io.showA (I.val x), io.showA a, d', xd', dst, xsD, io.ok x)
+      else (io.dbg x ++ " .", io.showA (I.val x), io.showA a, src', xsS, d', xd', io.ok x)
+    | .ok d', _, _ =>
+      if same then (io.dbg x ++ " .", "ood", "ood", d', xd0, dst, xsD, io.ok x)
+      else (io.dbg x ++ " .", "ood", "ood", src', xsS, d', xd0, io.ok x)
+    | .error e, _, _ =>
+      if same then (io.dbg x ++ " " ++ e.toString, "ood", "ood", src', xsS, dst, xsD, io.ok x)
+      else (io.dbg x ++ " " ++ e.toString, "ood", "ood", src', xsS, dst, xsD, io.ok x)
+
+/-- `y slice | iter | new`: the OTHER tree is rebuilt from values read back from this one — `from_slice` / `from_iter` of the
+    `n` single-element asks, or `new(n, ask(0, n-1))`.  The plain-list side of the rebuilt tree is the list of the items the
+    model read (`C01.rebuild_refines`); the printed specification is the source's plain list.
+    `(raw, view, spec, src', dst', xsD', ok)`; `none` = malformed -/
+def rebuildOp (src : Seg T) (xsS : List T) (c : String) : Option (String × String × String × Seg T × Seg T × List T × Bool) :=
+  let I := io.item
+  if c == "new" then
+    match src.ask I 0 (src.n - 1), Spec.ask I xsS 0 (src.n - 1) with
+    | .ok (x, src'), .ok a =>
+      match Seg.new I src.n x with
+      | .ok d => some (io.dbg x, io.showA (I.val x), io.showA a, src', d, List.replicate src.n x, io.ok x)
+      | .error _ => none
+    | _, _ => none
+  else
+    let q := src.debug I
+    let built := if c == "slice" then some (Seg.fromSlice I q.1) else if c == "iter" then some (Seg.fromIter I q.1) else none
+    match built with
+    | some (.ok d) =>
+      some (dbgList io q.1, showListWith io.showA (q.1.map I.val), showListWith io.showA (xsS.map I.val), q.2, d, q.1, q.1.all io.ok)
+    | _ => none
 
 /-- no node of the model tree carries an overflow flag (always `true` for the unguarded items) -/
 def treeOk (s : Seg T) : Bool := !io.guarded || s.t.all io.ok
 
 /-- the last component: the history stayed inside the element type (no overflow flag in the tree after any operation,
-    none on any returned value) -/
-def runOps (s : Seg T) (xs : List T) : List String → List String → List String → List String → Bool →
+    none on any returned value).  Two trees `(s, xs)` and `(s2, xs2)`; an op prefixed with `b` acts on the second. -/
+def runOps (s : Seg T) (xs : List T) (s2 : Seg T) (xs2 : List T) : List String → List String → List String → List String → Bool →
     Option (List String × List String × List String × Bool)
   | [], rs, vs, ss, ok => some (rs.reverse, vs.reverse, ss.reverse, ok)
   | o :: os, rs, vs, ss, ok =>
-    match stepOp io s xs (tokens o) with
+    let toks := tokens o
+    let sel := toks.head? == some "b"
+    let toks := if sel then toks.drop 1 else toks
+    -- `(a, xa)` = the tree the op addresses, `(b, xb)` = the other one
+    let a := if sel then s2 else s
+    let xa := if sel then xs2 else xs
+    let b := if sel then s else s2
+    let xb := if sel then xs else xs2
+    let res : Option (String × String × String × Seg T × List T × Seg T × List T × Bool) :=
+      match toks with
+      | [kind, i, l, r] =>
+        if kind == "cp" || kind == "x" then
+          match parseNat? i, parseNat? l, parseNat? r with
+          | some i, some l, some r => some (xferOp io (kind == "cp") a xa b xb i l r)
+          | _, _, _ => none
+        else (stepOp io a xa toks).map fun q => (q.1, q.2.1, q.2.2.1, q.2.2.2.1, q.2.2.2.2.1, b, xb, q.2.2.2.2.2)
+      | ["y", c] => (rebuildOp io a xa c).map fun q => (q.1, q.2.1, q.2.2.1, q.2.2.2.1, xa, q.2.2.2.2.1, q.2.2.2.2.2.1, q.2.2.2.2.2.2)
+      | _ => (stepOp io a xa toks).map fun q => (q.1, q.2.1, q.2.2.1, q.2.2.2.1, q.2.2.2.2.1, b, xb, q.2.2.2.2.2)
+    match res with
     | none => none
-    | some (r, v, sp, s', xs', ok') => runOps s' xs' os (r :: rs) (v :: vs) (sp :: ss) (ok && ok' && treeOk io s')
+    | some (r, v, sp, a', xa', b', xb', ok') =>
+      let ok'' := ok && ok' && treeOk io a' && treeOk io b'
+      if sel then runOps b' xb' a' xa' os (r :: rs) (v :: vs) (sp :: ss) ok''
+      else runOps a' xa' b' xb' os (r :: rs) (v :: vs) (sp :: ss) ok''
 
 def invalid : String := answer3 "INVALID" "INVALID" "any"
 
@@ -146,6 +226,9 @@ def runCase (ctor : String) (vals : List String) (n : Nat) (ops : List String) :
       | "new", [v] => some (Seg.new I n v, List.replicate n v)
       | "slice", vs => if vs.length = n then some (Seg.fromSlice I vs, vs) else none
       | "iter", vs => if vs.length = n then some (Seg.fromIter I vs, vs) else none
+      -- `from_iter` on a partially consumed / a reversed `ExactSizeIterator` that yields exactly `vs`
+      | "iterp", vs => if vs.length = n then some (Seg.fromIter I vs, vs) else none
+      | "iterr", vs => if vs.length = n then some (Seg.fromIter I vs, vs) else none
       | _, _ => none
     match built with
     | none => invalid
@@ -153,7 +236,28 @@ def runCase (ctor : String) (vals : List String) (n : Nat) (ops : List String) :
       -- the constructors are specified on n ≥ 1 only (and never fail there); the model mirrors the panic of the code
       answer3 e.toString e.toString "any"
     | some (.ok s, xs) =>
-      match runOps io s xs ops ["ok"] ["ok"] ["ok"] (treeOk io s) with
+      -- the second live tree (only when the history addresses it): same constructor, one element longer (the first value
+      -- once more)
+      let two := ops.any fun o => match tokens o with
+        | t :: _ => t == "b" || t == "x" || t == "y"
+        | [] => false
+      let second : Option (Seg T × List T) :=
+        if !two then some (s, xs) else
+        match ctor, vs with
+        | "new", [v] => match Seg.new I (n + 1) v with
+          | .ok s2 => some (s2, List.replicate (n + 1) v)
+          | .error _ => none
+        | "slice", v :: _ => match Seg.fromSlice I (vs ++ [v]) with
+          | .ok s2 => some (s2, vs ++ [v])
+          | .error _ => none
+        | _, v :: _ => match Seg.fromIter I (vs ++ [v]) with
+          | .ok s2 => some (s2, vs ++ [v])
+          | .error _ => none
+        | _, [] => none
+      match second with
+      | none => invalid
+      | some (s2, xs2) =>
+      match runOps io s xs s2 xs2 ops ["ok"] ["ok"] ["ok"] (treeOk io s && treeOk io s2) with
       | none => invalid
       | some (rs, vs, ss, ok) =>
         -- a history on which the code's machine arithmetic would overflow is outside the property's domain
@@ -342,6 +446,140 @@ def ioMMT (ty : IntTy) := guardIO (ioMM ty) (prodGuard (minAddGuard ty) (maxAddG
 def ioSMMT (ty : IntTy) := guardIO (ioSMM ty) (prodGuard (prodGuard (sumAddGuard ty) (minAddGuard ty)) (maxAddGuard ty))
   (fun x => ty.fits x.2.v && ty.fits x.2.md) ty.fits
 
+/-! ### element types whose order ignores part of the value: the record `Rec { key, tag }`, floats -/
+
+/-- `key/tag` -/
+def recVal? (s : String) : Option KV :=
+  match s.splitOn "/" with
+  | [k, t] => match parseInt? k, parseInt? t with
+    | some k, some t => some ⟨k, t⟩
+    | _, _ => none
+  | _ => none
+
+/-- `key/tag` or `key/tag@key/tag` -/
+def recLazy? (s : String) : Option KL :=
+  match s.splitOn "@" with
+  | [v] => (recVal? v).map fun v => ⟨v, kvZero⟩
+  | [v, m] => match recVal? v, recVal? m with
+    | some v, some m => some ⟨v, m⟩
+    | _, _ => none
+  | _ => none
+
+def recMod : List String → Option KV
+  | [m] => recVal? m
+  | _ => none
+
+def showRec (a : KV) : String := s!"({a.k},{a.t})"
+
+def predMinK : List String → Option (KV → Bool)
+  | ["lt", c] => (parseInt? c).map fun c a => decide (a.k < c)
+  | ts => predConst ts
+
+def predMaxK : List String → Option (KV → Bool)
+  | ["gt", c] => (parseInt? c).map fun c a => decide (a.k > c)
+  | ts => predConst ts
+
+def predMMK : List String → Option (KV × KV → Bool)
+  | ["lt", c] => (parseInt? c).map fun c a => decide (a.1.k < c)
+  | ["gt", c] => (parseInt? c).map fun c a => decide (a.2.k > c)
+  | ["spread", c] => (parseInt? c).map fun c a => decide (a.2.k - a.1.k ≥ c)
+  | ts => predConst ts
+
+/-- `<Rec as MinMax>::MAX` / `MIN` as the harness defines them -/
+def recMax : KV := ⟨i64Max, 0⟩
+def recMin : KV := ⟨i64Min, 0⟩
+
+def klDbg (name : String) (sh : KV → String) (x : KL) : String := s!"{name} \{ v: {sh x.v}, md: {sh x.md} }"
+
+def ioMinR : ItemIO KV Unit KV :=
+  ⟨minKItem recMax, recVal?, unitMod, predMinK, fun x => s!"Min \{ v: {x.dbgRec} }", showRec, okAll, false⟩
+def ioMaxR : ItemIO KV Unit KV :=
+  ⟨maxKItem recMin, recVal?, unitMod, predMaxK, fun x => s!"Max \{ v: {x.dbgRec} }", showRec, okAll, false⟩
+def ioMinAddR : ItemIO KL KV KV :=
+  ⟨minAddKItem recMax, recLazy?, recMod, predMinK, klDbg "MinAdd" KV.dbgRec, showRec, okAll, false⟩
+def ioMaxAddR : ItemIO KL KV KV :=
+  ⟨maxAddKItem recMin, recLazy?, recMod, predMaxK, klDbg "MaxAdd" KV.dbgRec, showRec, okAll, false⟩
+def ioMMR : ItemIO (KL × KL) KV (KV × KV) :=
+  ⟨prodItem (minAddKItem recMax) (maxAddKItem recMin), fun s => (recLazy? s).map fun v => (v, v), recMod, predMMK,
+   combDbg (klDbg "MinAdd" KV.dbgRec) (klDbg "MaxAdd" KV.dbgRec), fun a => s!"({showRec a.1},{showRec a.2})", okAll, false⟩
+
+/-- a non-NaN bit pattern of the format (decimal) -/
+def bitsVal? (f : FloatFmt) (s : String) : Option KV :=
+  (parseNat? s).bind fun b => if f.valid b then some ⟨f.ordKey b, b⟩ else none
+
+def predMinF (f : FloatFmt) : List String → Option (KV → Bool)
+  | ["lt", c] => (bitsVal? f c).map fun c a => decide (a.k < c.k)
+  | ts => predConst ts
+
+def predMaxF (f : FloatFmt) : List String → Option (KV → Bool)
+  | ["gt", c] => (bitsVal? f c).map fun c a => decide (a.k > c.k)
+  | ts => predConst ts
+
+def showBitsKV (a : KV) : String := toString a.t
+
+/-- `Min<f64>` / `Max<f64>` (`f32`): any non-NaN values, `Default` = the type's `MAX` / `MIN` -/
+def ioMinF (f : FloatFmt) : ItemIO KV Unit KV :=
+  ⟨minKItem ⟨f.ordKey f.maxBits, f.maxBits⟩, bitsVal? f, unitMod, predMinF f, fun x => s!"Min \{ v: {x.t} }", showBitsKV, okAll, false⟩
+def ioMaxF (f : FloatFmt) : ItemIO KV Unit KV :=
+  ⟨maxKItem ⟨f.ordKey f.minBits, f.minBits⟩, bitsVal? f, unitMod, predMaxF f, fun x => s!"Max \{ v: {x.t} }", showBitsKV, okAll, false⟩
+
+/-- integers on which the float `+` / `*` of the additive items is exact: `|z| < 2^(mbits+1)` -/
+def exactInt (f : FloatFmt) (z : Int) : Bool := decide (z.natAbs < 2 ^ (f.mbits + 1))
+
+/-- an integer-valued float as the model sees it; the bit pattern it is printed as (`t ≠ 0` never occurs: marked) -/
+def showIntKV (f : FloatFmt) (a : KV) : String := if a.t = 0 then toString (f.ofInt a.k) else s!"{f.ofInt a.k}!"
+
+def intKL? (f : FloatFmt) (s : String) : Option KL :=
+  (intVal? s).bind fun v => if exactInt f v.1 && exactInt f v.2 then some ⟨⟨v.1, 0⟩, ⟨v.2, 0⟩⟩ else none
+
+def intKVMod (f : FloatFmt) : List String → Option KV
+  | [m] => (parseInt? m).bind fun m => if exactInt f m then some ⟨m, 0⟩ else none
+  | _ => none
+
+/-- a value of the model is inside the exact range (or is the `Default`, which no arithmetic ever touches) -/
+def klExact (f : FloatFmt) (x : KL) : Bool := (exactInt f x.v.k || x.v.k.natAbs == f.maxInt.natAbs) && exactInt f x.md.k
+
+def ioMinAddF (f : FloatFmt) : ItemIO KL KV KV :=
+  ⟨minAddKItem ⟨f.maxInt, 0⟩, intKL? f, intKVMod f, predMinK, klDbg "MinAdd" (showIntKV f), showIntKV f, klExact f, true⟩
+def ioMaxAddF (f : FloatFmt) : ItemIO KL KV KV :=
+  ⟨maxAddKItem ⟨-f.maxInt, 0⟩, intKL? f, intKVMod f, predMaxK, klDbg "MaxAdd" (showIntKV f), showIntKV f, klExact f, true⟩
+def ioMMF (f : FloatFmt) : ItemIO (KL × KL) KV (KV × KV) :=
+  ⟨prodItem (minAddKItem ⟨f.maxInt, 0⟩) (maxAddKItem ⟨-f.maxInt, 0⟩), fun s => (intKL? f s).map fun v => (v, v), intKVMod f, predMMK,
+   combDbg (klDbg "MinAdd" (showIntKV f)) (klDbg "MaxAdd" (showIntKV f)),
+   fun a => s!"({showIntKV f a.1},{showIntKV f a.2})", fun x => klExact f x.1 && klExact f x.2, true⟩
+
+def intModF (f : FloatFmt) : List String → Option Int
+  | [m] => (parseInt? m).bind fun m => if exactInt f m then some m else none
+  | _ => none
+
+/-- `Sum<f64>` / `SumAdd<f64>` on integer-valued floats: the integer items, printed as bit patterns; a history that leaves
+    the exact range is outside the domain (`S any`) -/
+def ioSumF (f : FloatFmt) : ItemIO SumI Unit Int :=
+  ⟨sumItem, fun s => (plainVal? s).bind fun v => if exactInt f v then some ⟨v⟩ else none, unitMod, predSum,
+   fun x => s!"Sum \{ v: {f.ofInt x.v} }", fun a => toString (f.ofInt a), fun x => exactInt f x.v, true⟩
+def ioSumAddF (f : FloatFmt) : ItemIO SumAdd Int (Int × Int) :=
+  ⟨sumAddItem, fun s => (intVal? s).bind fun v => if exactInt f v.1 && exactInt f v.2 then some ⟨v.1, 1, v.2⟩ else none,
+   intModF f, predSumAdd,
+   fun x => s!"SumAdd \{ v: {f.ofInt x.v}, len: {f.ofInt x.len}, md: {f.ofInt x.md} }",
+   fun a => s!"({f.ofInt a.1},{f.ofInt a.2})",
+   -- every intermediate of `v + m * len` stays exact when the three fields and the product bound do
+   fun x => exactInt f x.v && exactInt f x.len && exactInt f x.md && exactInt f (x.md * x.len), true⟩
+
+/-- `Sum<Cat>`: `Cat` = the harness's string type whose `+` is concatenation (`{:?}` prints the quoted string) -/
+def ioSumCat : ItemIO (List Nat) Unit (List Nat) :=
+  ⟨catSumItem, fun s => if s.contains '@' then none else parseWord s, unitMod, predStr,
+   fun x => s!"Sum \{ v: \"{letters x}\" }", showWord, okAll, false⟩
+
+def floatFmt? : String → Option FloatFmt
+  | "f64" => some f64Fmt
+  | "f32" => some f32Fmt
+  | _ => none
+
+/-- `const f64` / `const f32`: `MinMax::MIN`, `MAX`, `ZeroOne::ZERO`, `ONE` as bit patterns -/
+def constLineF (f : FloatFmt) : String :=
+  let s := s!"{f.minBits} {f.maxBits} 0 {f.oneBits}"
+  answer3 s s s
+
 def ioAff : ItemIO AffHash (Int × Int) (Int × Int × Int) :=
   ⟨affHashItem, fun s => (affVal? s).map fun v => affElem v.1 v.2, intPair, predAff, AffHash.dbg, showAff, okAll, false⟩
 def ioAA : ItemIO (AffHash × AffHash) (Int × Int) ((Int × Int × Int) × (Int × Int × Int)) :=
@@ -381,9 +619,10 @@ def handle (line : String) : String :=
   | hdr :: ops =>
     match tokens hdr with
     | ["const", ty] =>
-      match IntTy.parse? ty, ops with
-      | some ty, [] => constLine ty
-      | _, _ => invalid
+      match IntTy.parse? ty, floatFmt? ty, ops with
+      | some ty, _, [] => constLine ty
+      | none, some f, [] => constLineF f
+      | _, _, _ => invalid
     | item :: ctor :: n :: vals =>
       match parseNat? n with
       | none => badLine line
@@ -405,9 +644,30 @@ def handle (line : String) : String :=
           | "flipb" => runCase ioFlipB ctor vals n ops
           | "str" => runCase ioStr ctor vals n ops
           | _ => badLine line
+        | ["sum", "cat"] => runCase ioSumCat ctor vals n ops
+        | [item, "rec"] =>
+          match item with
+          | "min" => runCase ioMinR ctor vals n ops
+          | "max" => runCase ioMaxR ctor vals n ops
+          | "minadd" => runCase ioMinAddR ctor vals n ops
+          | "maxadd" => runCase ioMaxAddR ctor vals n ops
+          | "mm" => runCase ioMMR ctor vals n ops
+          | _ => invalid
         | [item, ty] =>
           match IntTy.parse? ty with
-          | none => invalid
+          | none =>
+            match floatFmt? ty with
+            | none => invalid
+            | some f =>
+              match item with
+              | "min" => runCase (ioMinF f) ctor vals n ops
+              | "max" => runCase (ioMaxF f) ctor vals n ops
+              | "sum" => runCase (ioSumF f) ctor vals n ops
+              | "minadd" => runCase (ioMinAddF f) ctor vals n ops
+              | "maxadd" => runCase (ioMaxAddF f) ctor vals n ops
+              | "sumadd" => runCase (ioSumAddF f) ctor vals n ops
+              | "mm" => runCase (ioMMF f) ctor vals n ops
+              | _ => invalid
           | some ty =>
             match item with
             | "min" => runCase (ioMinT ty) ctor vals n ops
